@@ -28,6 +28,8 @@ run_directed = directed.run
 
 
 def cases(tier, rng):
+    for c in directed.method_aliased_as_setattr_in_subclass_cases():
+        yield "directed-method-aliased-as-setattr-in-subclass", c
     for c in directed.functions_from_one_definition_cases():
         yield "directed-functions-from-one-definition", c
     for c in directed.late_decoration_of_inheriting_accessor_cases():
